@@ -24,7 +24,10 @@ meta = {"property": prop, "seed": k, "confirmed_in": wt}
 if not os.path.isdir(wt):
     sh("git -C /repo worktree add -q %s HEAD" % wt)
 sh("git checkout -q -- . && git clean -fdq", cwd=wt)
+sh("git checkout -q --detach %s" % sh("git -C /repo rev-parse HEAD")[1].strip(), cwd=wt)      # the scratch tree follows /repo's HEAD
 rc, out = sh("git apply %s" % patch, cwd=wt)
+if rc != 0:
+    rc, out = sh("git apply -3 %s" % patch, cwd=wt)
 assert rc == 0, "patch does not apply: " + out
 rc, out = sh("cargo build --offline -q 2>&1 | tail -5", cwd=wt)
 rc_t, out_t = sh("cargo test --offline 2>&1 | grep -E '^test result' | head -1", cwd=wt)
